@@ -105,6 +105,32 @@ Example C08_uid_final_script_sig :
   exists t, uid_preimage p = Val t /\ uid_preimage q = Val t.
 Proof. cbn zeta. eexists. split; vm_compute; reflexivity. Qed.
 
+(* the explicit-value clause: a role that reveals the explicit issuance amount / inflation keys / output amount / output asset next to a
+   commitment that is already present (the blind proofs that go with it are read by no extraction: C08_uid_invariant) changes neither the
+   extracted transaction nor, therefore, the unique id — the commitment is what is extracted *)
+Theorem C08_reveal_keeps_extraction : forall p i f fc v c,
+  (In (f, fc) reveal_pairs_in -> unk (nth i (pinputs p) empty_map) fc = Some c ->
+     extract_tx (mkpset (pglobal p) (upd_nth (pinputs p) i (fun m => set_unk m f v)) (poutputs p)) = extract_tx p) /\
+  (In (f, fc) reveal_pairs_out -> unk (nth i (poutputs p) empty_map) fc = Some c ->
+     extract_tx (mkpset (pglobal p) (pinputs p) (upd_nth (poutputs p) i (fun m => set_unk m f v))) = extract_tx p).
+Proof. intros. split; intros; [eapply extract_reveal_input|eapply extract_reveal_output]; eauto. Qed.
+Theorem C08_reveal_keeps_uid : forall (id : Type) (H : tx -> id) p i f fc v c,
+  (In (f, fc) reveal_pairs_in -> unk (nth i (pinputs p) empty_map) fc = Some c ->
+     unique_id H (mkpset (pglobal p) (upd_nth (pinputs p) i (fun m => set_unk m f v)) (poutputs p)) = unique_id H p) /\
+  (In (f, fc) reveal_pairs_out -> unk (nth i (poutputs p) empty_map) fc = Some c ->
+     unique_id H (mkpset (pglobal p) (pinputs p) (upd_nth (poutputs p) i (fun m => set_unk m f v))) = unique_id H p).
+Proof.
+  intros id H p i f fc v c. unfold unique_id, uid_preimage, uid_preimage_with.
+  split; intros I C; [rewrite (extract_reveal_input _ _ p i f fc v c I C)|rewrite (extract_reveal_output _ _ p i f fc v c I C)]; reflexivity.
+Qed.
+Example C08_reveal_pairs : reveal_pairs_in = [(fld "issuance_value_amount", fld "issuance_value_comm"); (fld "issuance_inflation_keys", fld "issuance_inflation_keys_comm")]
+  /\ reveal_pairs_out = [(fld "amount", fld "amount_comm"); (fld "asset", fld "asset_comm")].
+Proof. split; reflexivity. Qed.
+(* the commitment wins in all four places, also when the explicit value is there: an inflation-keys example *)
+Example C08_commitment_wins :
+  ti_iss_keys (txin_of (set_unk (set_unk empty_map F_iss_keys (Some (repeat x01 8))) F_iss_keys_comm (Some (x09 :: repeat x22 32)))) = CConf (x09 :: repeat x22 32).
+Proof. vm_compute. reflexivity. Qed.
+
 Check (C08_locktime_spec : forall p, locktime p = bip370 p).
 Check (C08_locktime_total : forall p s, locktime p <> Panic s).
 Check (C08_rt : forall t, wf_tx t -> Forall (fun o => ~ known_F8b o) (tx_outs t) -> extract_tx (from_tx t) = Val t).
@@ -114,3 +140,4 @@ Print Assumptions C08_locktime_spec.
 Print Assumptions C08_locktime_total.
 Print Assumptions C08_rt.
 Print Assumptions C08_uid_invariant.
+Print Assumptions C08_reveal_keeps_extraction.
